@@ -272,7 +272,7 @@ def impl_validate(ctx, trace_file, label, limit, contract_kinds):
                     w.writelines(ln for ln, _ in scen[sc])
                     spans.append((sc, n + 1, n + len(scen[sc])))
                     n += len(scen[sc])
-            r = ctx.tlc(S, "Trace_BatchLPImpl", "Trace_BatchLPImpl.cfg", workers=1, deque=True, timeout=240,
+            r = ctx.tlc(S, "Trace_BatchLPImpl", "Trace_BatchLPImpl.cfg", workers=1, deque=True, timeout=240, heap="2g",
                         extra_files={"trace.ndjson": f}, name="impl-%s-%d" % (label, gi), must_pass=False, count=False)
             out["starts"] += 1
             out["states"] += r["distinct"]
@@ -349,11 +349,13 @@ def run(ctx):
         fam += [(2, 1, 1, 1, 1, 1, 1, False, True), (2, 2, 2, 2, 1, 1, 1, False, False), (3, 1, 2, 1, 1, 0, 1, False, True), (2, 1, 1, 1, 1, 2, 1, False, False),
                 (1, 2, 2, 1, 1, 1, 2, True, True), (2, 1, 2, 2, 1, 1, 2, False, True)] + THOROUGH_EXTRA
     cov_cfg = fam[0]
+    # TLC jobs run 5 wide: cap every heap (default = a quarter of the RAM each; the kernel's OOM killer took a run on a loaded machine)
+    HEAP_BIG = "8g" if thorough else "3g"
 
     def mc(c, cancels=()):
         return ctx.tlc(S, "MC_BatchLP", "MC_BatchLP.cfg", defines=mc_defs(*c, cancels=cancels),
                        name="mc-" + cfg_name(*c) + ("-ctx-" + "-".join(cancels) if cancels else ""), timeout=6000,
-                       coverage=(c == cov_cfg and not cancels), workers=4, must_pass=False, count=False)
+                       coverage=(c == cov_cfg and not cancels), workers=4, must_pass=False, count=False, heap=HEAP_BIG)
 
     # Small TLC jobs: (a) TLC must find every named deviation when it alone is not admitted (guards against a vacuous
     # contract), and a missing Clone (content-changed) in the no-clone variant of the model; (b) liveness under fairness:
@@ -366,13 +368,13 @@ def run(ctx):
         admit = 'Known \\ {"%s"}' % d if d != "no-clone" else "Known"
         return ctx.tlc(S, "MC_BatchLP", "MC_BatchLP.cfg",
                        defines=mc_defs(*nk_cfg.get(d, tiny), clone=(d != "no-clone"), admit=admit, abort=(d == "D2-chunk-aborted"), fixa=fixa, fixb=fixb),
-                       name="mc-noknown-" + d + tag, must_pass=False, count=False, timeout=1200, workers=2)
+                       name="mc-noknown-" + d + tag, must_pass=False, count=False, timeout=1200, workers=2, heap="2g")
 
     live = [(1, 2, 2, 1, 1, 1, 1, False, False)] + ([(2, 1, 2, 1, 1, 1, 1, False, False), (1, 1, 2, 1, 1, 1, 2, True, True)] if thorough else [])
 
     def liveness(c, fixa=False, fixb=False, tag=""):
         return ctx.tlc(S, "MC_BatchLP", "MC_BatchLP_live.cfg", defines=mc_defs(*c, fixa=fixa, fixb=fixb), name="live-" + cfg_name(*c) + tag,
-                       timeout=6000, workers=2 if tag and not thorough else 4, must_pass=False, count=False)
+                       timeout=6000, workers=2 if tag and not thorough else 4, must_pass=False, count=False, heap="4g")
 
     sims = [(2, 2, 2, 2, 1, 1, 1, True), (2, 1, 1, 1, 1, 1, 2, False), (1, 3, 2, 1, 1, 1, 1, True),
             (3, 2, 2, 1, 2, 2, 0, False), (2, 2, 4, 2, 1, 1, 0, True)] if hooks else []
@@ -386,7 +388,7 @@ def run(ctx):
         cs = SIM_CANCELS.get(c, ())
         return ctx.tlc(S, "MC_BatchLPSim", "MC_BatchLPSim.cfg", defines=mc_defs(e, k, q, b, buf, f, s, faults, cancels=cs), workers=1,
                        simulate="num=%d" % nsim, depth=400, name="sim-" + cfg_name(e, k, q, b, buf, f, s, faults) + ("-ctx" if cs else ""),
-                       timeout=1800, must_pass=False, count=False)
+                       timeout=1800, must_pass=False, count=False, heap="2g")
 
     # (d) the two sketched repairs of the shutdown races. Claimed effect of each (TLC decides): with the switch on, the
     # model with Admit = Known \ removed must satisfy Contract (exhaustive), every deviation NOT claimed removed must
@@ -402,7 +404,7 @@ def run(ctx):
         r = REPAIRS[name]
         admit = "Known \\ " + tla_set(r["removed"] + ["D2-chunk-aborted"])
         return ctx.tlc(S, "MC_BatchLP", "MC_BatchLP.cfg", defines=mc_defs(*c, admit=admit, fixa=r["fixa"], fixb=r["fixb"]),
-                       name="repair-%s-%s" % (name, cfg_name(*c)), must_pass=False, count=False, timeout=3000, workers=3)
+                       name="repair-%s-%s" % (name, cfg_name(*c)), must_pass=False, count=False, timeout=3000, workers=3, heap=HEAP_BIG)
 
     # (e) the pipeline around the batch processor
     slp_fam = [(2, 1, ["mut", "simple", "batch", "mut"], 1, 1), (2, 2, ["simple"], 0, 2)]
@@ -417,7 +419,7 @@ def run(ctx):
         e, k, kinds, f, s = c
         return ctx.tlc(S, "MC_SLP", "MC_SLP_live.cfg" if live_ else "MC_SLP.cfg", defines=slp_defs(e, k, kinds, f, s, mutation, admit, thresh=[0] * len(kinds)),
                        name="slp-%dx%d-%s-f%d-s%d%s" % (e, k, "".join(x[0] for x in kinds), f, s, tag), must_pass=False,
-                       count=False, timeout=3000, workers=3)
+                       count=False, timeout=3000, workers=3, heap="3g")
 
     with ThreadPoolExecutor(max_workers=5) as ex:
         f_mc = [(c, ex.submit(mc, c)) for c in ([] if skip_mc else fam)]
@@ -446,7 +448,7 @@ def run(ctx):
         r = f.result()
         if r["timed_out"] or r["violated"] or r["rc"] != 0 or r["error"]:
             raise vlib.Inconclusive("TLC %s: %s (model only, not a verdict on the code); see %s"
-                                    % (r["name"], r["violated"] or r["error"] or "timeout", r["out"]))
+                                    % (r["name"], r["violated"] or r["error"] or ("timeout" if r["timed_out"] else "rc=%s" % r["rc"]), r["out"]))
         ctx.states += r["distinct"]
         ctx.transitions += r["generated"]
         if c == cov_cfg:
